@@ -5,7 +5,7 @@ EXTENDS Scn
 mcRoles == {"c"}
 mcCallsS == {}
 mcCallsC ==
-  [op : {"set"}, s : {<<<<2, 0>>>>, <<<<2, 1>>>>, <<<<3, 1>>>>, <<<<4, 6>>>>, <<<<4, 6>>, <<2, 0>>>>, <<<<2, 5>>>>}]
+  [op : {"set"}, s : {<<<<2, 0>>>>, <<<<2, 1>>>>, <<<<3, 1>>>>, <<<<4, 6>>>>, <<<<4, 6>>, <<2, 0>>>>, <<<<2, 5>>>>, <<<<260, 7>>>>}]
   \cup [op : {"hdr"}, sid : {1, 3, 5}, h : {"req_get"}, es : BOOLEAN, pr : {<<>>}]
   \cup [op : {"data"}, sid : {1}, n : {4}, tag : {"A"}, es : {FALSE}, pad : {-1}]
   \cup [op : {"oout"}, sid : {1}]
